@@ -134,6 +134,55 @@ def guarded_work_finally(x):
         _busy.remove(id(x))
 
 
+_depth = 0
+
+
+def counted_work(x):
+    # P7 (counter form): the count stays raised when work() raises
+    global _depth
+    if _depth >= 64:
+        raise ValueError('too deep')
+    _depth += 1
+    r = work(x)
+    _depth -= 1
+    return r
+
+
+def counted_work_finally(x):
+    global _depth
+    _depth += 1
+    try:
+        return work(x)
+    finally:
+        _depth -= 1
+
+
+def sig_of(obj, seen=None):
+    # P10: `seen` only grows - (x, x) is refused as a cycle
+    if seen is None:
+        seen = set()
+    if isinstance(obj, (list, tuple)):
+        if id(obj) in seen:
+            raise ValueError('recursive structure')
+        seen.add(id(obj))
+        return '(' + ''.join(sig_of(e, seen) for e in obj) + ')'
+    return 's'
+
+
+def sig_of_path(obj, seen=None):
+    if seen is None:
+        seen = set()
+    if isinstance(obj, (list, tuple)):
+        if id(obj) in seen:
+            raise ValueError('recursive structure')
+        seen.add(id(obj))
+        try:
+            return '(' + ''.join(sig_of_path(e, seen) for e in obj) + ')'
+        finally:
+            seen.discard(id(obj))
+    return 's'
+
+
 class Registered:
     known = {}
 
